@@ -125,3 +125,77 @@ func c11DeadArithmetic(c *core.Check) {
 		"html/layout.inlineOutOfFlowLayout | maxX - _ #1": "redundant, not lost: splitInlineBox subtracts the margin width of every float placed by this call from its own maxX right after the call (the same quantity, for right floats)",
 	}, "html/layout", "html/boxes", "text", "text/draw")
 }
+
+// c11EndSpacingTested (R17): the room reserved at the end of an inline box is its end spacing: the right one in a
+// left-to-right box, the left one in a right-to-left box.  The second layout of the last child is made when that
+// spacing is not zero: the value compared with zero on the way to the subtraction is the value subtracted.
+// (The test read `rightSpacing != 0` while `endSpacing` was subtracted: a right-to-left inline box with left padding
+// only overflowed its line.)
+func c11EndSpacingTested(c *core.Check) {
+	p := c.Prog
+	r := c.Rule("R17", "the spacing tested is the spacing reserved: in html/layout.splitInlineBox, the value subtracted from the available width for the second layout of the last child is compared with zero in a condition on the way to the subtraction", 1)
+	fn := p.Fn("html/layout", "splitInlineBox")
+	if fn == nil {
+		r.Anchor("html/layout.splitInlineBox")
+		return
+	}
+	n := 0
+	core.Instrs(fn, func(in ssa.Instruction) {
+		sub, ok := in.(*ssa.BinOp)
+		if !ok || sub.Op != token.SUB {
+			return
+		}
+		// only the subtraction that feeds a call of splitInlineLevel
+		feeds := false
+		core.Instrs(fn, func(in2 ssa.Instruction) {
+			if call, ok := in2.(*ssa.Call); ok && call.Call.StaticCallee() != nil && call.Call.StaticCallee().Name() == "splitInlineLevel" {
+				// the width the child is laid out in is the fourth argument
+				if len(call.Call.Args) > 3 && core.DerivesFrom(call.Call.Args[3], func(v ssa.Value) bool { return v == ssa.Value(sub) }) {
+					feeds = true
+				}
+			}
+		})
+		if !feeds || !isBoxSpacing(sub.Y) {
+			return
+		}
+		n++
+		key := fmt.Sprintf("html/layout.splitInlineBox | reserved spacing #%d", n)
+		same := false
+		for _, a := range core.CondAtomsReaching(fn, sub.Block()) {
+			b, ok := a.(*ssa.BinOp)
+			if !ok || (b.Op != token.NEQ && b.Op != token.EQL && b.Op != token.GTR) {
+				continue
+			}
+			if z, ok := core.ConstFloat(b.Y); !ok || z != 0 {
+				continue
+			}
+			if b.X == sub.Y {
+				same = true
+			}
+		}
+		r.Cond(same, key, p.Pos(sub.Pos()), "the value subtracted is compared with zero on the way", "the value subtracted from the available width is not the one compared with zero before: the room is reserved, or not, according to another spacing (the right one instead of the end one)")
+	})
+	if n == 0 {
+		r.Unknown("html/layout.splitInlineBox | reserved spacing", p.Pos(fn.Pos()), "no subtraction from the available width feeding splitInlineLevel")
+	}
+}
+
+// isBoxSpacing: the value is computed from the padding, margin and border widths of a box.
+func isBoxSpacing(v ssa.Value) bool {
+	return arithDerives(v, func(v ssa.Value) bool {
+		call, ok := v.(*ssa.Call)
+		if !ok || !call.Call.IsInvoke() || call.Call.Method.Name() != "V" {
+			return false
+		}
+		ld, ok := call.Call.Value.(*ssa.UnOp)
+		if !ok {
+			return false
+		}
+		fa, ok := ld.X.(*ssa.FieldAddr)
+		if !ok {
+			return false
+		}
+		n := core.FieldName(fa)
+		return strings.HasPrefix(n, "Padding") || strings.HasPrefix(n, "Margin") || (strings.HasPrefix(n, "Border") && strings.HasSuffix(n, "Width"))
+	})
+}
